@@ -1,5 +1,48 @@
-import TcheranVerif.Model.Eval
+import TcheranVerif.Props.C03
+/-!
+# C15 — the incrementally maintained evaluation state equals recomputation
+
+`Sync c g` (shared with C03) contains `g.inc = IncrementalEvalFields::init(g.board)` for **any**
+parameter table `c.pst`, `c.phase`. It holds for every position set up from scratch, is preserved by
+`make_move` and `make_null_move`, hence along every history; take-backs return to earlier states
+exactly (`Props.C02.unwind_path`), which were in sync. Consequently the accumulators — and the
+static evaluation, which reads nothing else that depends on the path — are a function of the board.
+-/
 namespace Tcheran.Props.C15
-theorem placeholder : True := trivial
+open Tcheran Board Game Tcheran.Props.C03
+
+/-- the accumulators as sums over the mailbox -/
+theorem inc_is_sum (c : Cfg) (b : Board) :
+    Game.incInit c b = ⟨isum sqs (phaseC c b), isum sqs (pstC c b)⟩ := incInit_eq c b
+
+theorem inc_after_setAt (c : Cfg) (g : Game) (s : Sq) (pc : Piece) (h : Sync c g) (he : g.board.pieceAt s = none) :
+    (Game.setAt c g s pc).inc = Game.incInit c (Game.setAt c g s pc).board := (sync_setAt c g s pc h he).inc
+
+theorem inc_after_move (c : Cfg) (g g' : Game) (mv : Move) (h : Sync c g) (hok : MoveOk g mv)
+    (hr : makeMove c g mv = some g') : g'.inc = Game.incInit c g'.board :=
+  (key_after_move c g g' mv h hok hr).inc
+
+theorem inc_after_null (c : Cfg) (g : Game) (h : Sync c g) :
+    (makeNull c g).inc = Game.incInit c (makeNull c g).board := (key_after_null c g h).inc
+
+/-- **eval_inv** along every history of moves and null moves -/
+theorem inc_along_path (c : Cfg) (g g' : Game) (ms : List (Option Move)) (h : Sync c g) (hp : Path c g ms g') :
+    g'.inc = Game.incInit c g'.board := (key_along_path c g g' ms h hp).inc
+
+/-- **eval_path_independent**: two in-sync games with the same placement carry the same accumulators -/
+theorem inc_path_independent (c : Cfg) (g1 g2 : Game) (h1 : Sync c g1) (h2 : Sync c g2)
+    (hb : g1.board.squares = g2.board.squares) : g1.inc = g2.inc := by
+  have : g1.board = g2.board := consistent_ext _ _ h1.cons h2.cons hb
+  rw [h1.inc, h2.inc, this]
+
+/-- the phase contributions regenerated from the source are what `piece_phase_value_contribution` says -/
+theorem phase_table : Gen.phaseContribution = #[0, 1, 1, 2, 4, 0] := by decide
+
 end Tcheran.Props.C15
-#print axioms Tcheran.Props.C15.placeholder
+#print axioms Tcheran.Props.C15.inc_is_sum
+#print axioms Tcheran.Props.C15.inc_after_setAt
+#print axioms Tcheran.Props.C15.inc_after_move
+#print axioms Tcheran.Props.C15.inc_after_null
+#print axioms Tcheran.Props.C15.inc_along_path
+#print axioms Tcheran.Props.C15.inc_path_independent
+#print axioms Tcheran.Props.C15.phase_table
